@@ -809,3 +809,42 @@ def ring_dfa(rng, n=None):
             if e[0] == f2:
                 e[2] = v
     return {'Q': sorted(Q), 'Sigma': Sig, 'delta': delta, 'q0': Q[0], 'F': F}
+
+
+def wide_dfa(rng, n=None):
+    """a counter-like total DFA with 130-150 states over two symbols: more than 256 transitions"""
+    n = n or rng.randint(130, 150)
+    Q = ['w%d' % i for i in range(n)]
+    delta = []
+    for i in range(n):
+        delta.append([Q[i], 'a', Q[(i + 1) % n]])
+        delta.append([Q[i], 'b', Q[(i * 7 + 3) % n]])
+    return {'Q': Q, 'Sigma': ['a', 'b'], 'delta': delta, 'q0': Q[0], 'F': [Q[i] for i in range(n) if i % 5 == 2]}
+
+
+def wide_cfg(rng):
+    """one variable with 18-30 alternatives: its printed rule is far longer than a terminal line"""
+    letters = ['a', 'b', 'c', 'd', 'e', 'f', 'g', 'h'][:rng.randint(4, 8)]
+    V = ['S'] + (['T'] if rng.random() < 0.6 else [])
+    alts = []
+    for x in letters:
+        alts.append([['t', x]])
+        alts.append([['t', x], ['v', 'S'], ['t', x]])
+    while len(alts) < rng.randint(18, 30):
+        n = rng.randint(2, 4)
+        alt = [(['v', rng.choice(V)] if rng.random() < 0.3 else ['t', rng.choice(letters)]) for _ in range(n)]
+        if alt not in alts:
+            alts.append(alt)
+    rng.shuffle(alts)
+    R = [['S', i, alt] for i, alt in enumerate(alts)]
+    if 'T' in V:
+        R.append(['T', len(R), [['t', letters[0]], ['v', 'T']]])
+        R.append(['T', len(R), [['t', letters[1]]]])
+    return {'V': V, 'Sigma': sorted(letters), 'R': R, 'S': 'S'}
+
+
+def late_long_chain_nfa(n):
+    """q0 -a-> c0 -eps-> c1 ... -eps-> c<n-1> -b-> f: an accepting run with n-1 consecutive epsilon steps"""
+    Q = ['q0'] + ['c%d' % i for i in range(n)] + ['f']
+    delta = [['q0', 'a', ['c0']]] + [['c%d' % i, '_', ['c%d' % (i + 1)]] for i in range(n - 1)] + [['c%d' % (n - 1), 'b', ['f']]]
+    return {'Q': Q, 'Sigma': ['a', 'b'], 'delta': delta, 'q0': 'q0', 'F': ['f'], 'eps': '_', 'dd': True}
